@@ -30,6 +30,8 @@ vfps::RFKickMap::RFKickMap( std::shared_ptr<PhaseSpace> in
   , _syncphase(0)
   , _bl2phase(_axis[0]->scale("Meter")/physcons::c*_f_RF*two_pi<double>())
 {
+    // the RF kick is the same for all bunches: share the map of bunch 0
+    _lastbunch = 0;
     _calcKick(_syncphase);
 }
 
@@ -53,6 +55,8 @@ vfps::RFKickMap::RFKickMap( std::shared_ptr<PhaseSpace> in
   , _syncphase(std::asin(_V0/_V_RF))
   , _bl2phase(_axis[0]->scale("Meter")/physcons::c*_f_RF*two_pi<double>())
 {
+    // the RF kick is the same for all bunches: share the map of bunch 0
+    _lastbunch = 0;
     _calcKick(_syncphase);
 }
 
